@@ -234,10 +234,20 @@ def check(ctx):
             ctx.fail('C19.6', ctx.site(b), '%s is %s, expected %s' % (name, fmt(rt), desc), key='C19.6|' + name)
     same_as('add_type', lambda t, b: m_call(t, name='add_assertion') is not None and m_call(t, name='add_assertion')[0] == P1 and const_name(m_call(t, name='add_assertion')[1]) == 'IS_A' and contains(m_call(t, name='add_assertion')[2], lambda x: x == P2), 'add_assertion(self, \'isA\', type)')
     same_as('types', lambda t, b: m_call(t, name='objects_for_predicate') is not None and m_call(t, name='objects_for_predicate')[0] == P1 and const_name(m_call(t, name='objects_for_predicate')[1]) == 'IS_A', 'objects_for_predicate(self, \'isA\')')
+    depth = [0]
     def has_pred(t, b):
         # `any(types(self), |x| digest(x) == digest(type envelope))`, or the loop that returns true on the first such x
         sr = bool_search(F, b)
         if sr is None:
+            # delegation: has_type(self, t) = has_type_envelope(self, t.clone()) (or the other way round)
+            c = callee_of(t) if t[0] == 'call' else None
+            cb2 = F.by_hash.get(c.best_hash) if c is not None else None
+            if cb2 is not None and cb2.hash != b.hash and len(t[2]) == 2 and t[2][0] == P1 and contains(t[2][1], lambda y: y == P2) and depth[0] < 2:
+                depth[0] += 1
+                try:
+                    return has_pred(strip_sites(return_term_of(F, cb2)), cb2)
+                finally:
+                    depth[0] -= 1
             return False
         ty = m_call(sr.coll, name='types', self_suffix='Envelope') or m_call(sr.coll, name='objects_for_predicate')
         if ty is None or ty[0] != P1:
